@@ -287,6 +287,41 @@ func c12ScenarioTable() []c12Scenario {
 	add("message without unwrap", A, "GetUnwrapField", false, func() map[string]Val {
 		return map[string]Val{"message": cMessage("L", fld("items", "string").list())}
 	})
+	// every explicitly written value of a value-carrying field annotation on a field of the wrong type (the enum's
+	// default-meaning members included: `timestamp_format = RFC3339` on a string is as misplaced as UNIX_SECONDS)
+	A = "internal/annotations"
+	ts := func() *VStruct {
+		m := cMessage("Timestamp")
+		m.Fields["Desc"].(*VStruct).Fields["FullName()"] = constStr("google.protobuf.Timestamp")
+		return m
+	}
+	for _, va := range []struct {
+		fn, acc, what string
+		vals          []string
+		wrong, right  func() *cField
+	}{
+		{"ValidateTimestampFormatAnnotation", "GetTimestampFormat", "timestamp_format", []string{"RFC3339", "UNIX_SECONDS", "UNIX_MILLIS", "DATE"},
+			func() *cField { return fld("ts", "string") }, func() *cField { return fld("ts", "message").msg(ts()) }},
+		{"ValidateBytesEncodingAnnotation", "GetBytesEncoding", "bytes_encoding", []string{"BASE64", "BASE64_RAW", "BASE64URL", "BASE64URL_RAW", "HEX"},
+			func() *cField { return fld("b", "string") }, func() *cField { return fld("b", "bytes") }},
+		{"ValidateEmptyBehaviorAnnotation", "GetEmptyBehavior", "empty_behavior", []string{"PRESERVE", "NULL", "OMIT"},
+			func() *cField { return fld("e", "int32") }, func() *cField { return fld("e", "message").msg(cMessage("Inner")) }},
+	} {
+		va := va
+		for i, name := range va.vals {
+			n := int64(i + 1)
+			name := name
+			add(va.what+" = "+name+" on a field of the wrong type", A, va.fn, true, func() map[string]Val {
+				return map[string]Val{"field": va.wrong().ann(va.acc, VInt{N: n, Label: name}).val(), "messageName": constStr("Req")}
+			})
+			add(va.what+" = "+name+" on a field of the right type", A, va.fn, false, func() map[string]Val {
+				return map[string]Val{"field": va.right().ann(va.acc, VInt{N: n, Label: name}).val(), "messageName": constStr("Req")}
+			})
+		}
+		add(va.what+" absent on any field", A, va.fn, false, func() map[string]Val {
+			return map[string]Val{"field": va.wrong().val(), "messageName": constStr("Req")}
+		})
+	}
 	// TS server
 	T := pkgTSServer
 	add("TS server: path variable without a matching field", T, "resolvePathParamFields", true, func() map[string]Val {
